@@ -25,6 +25,7 @@ SHAPES = [
     ("expand", [[1, 1]], False, Q), ("expand", [[1, 1]], True, Q), ("expand", [[1, 0], [0, 1]], False, Q),
     ("expand", [[1, 0], [0, 1]], True, Q),
     ("expand", [[1, 1]], False, Q, dict(params=dict(built="merge"))), ("expand", [[1, 0], [0, 1]], True, Q, dict(params=dict(built="merge"))),
+    ("expand", [[1, 1]], False, Q, dict(params=dict(records_as="iter"))),
     ("expand", [[2, 2]], True, T), ("expand", [[1, 1], [1, 1]], True, T, dict(budget=900, shard=6)),
     ("expand", [[1, 0], [1, 0], [1, 0]], False, T, dict(budget=1500, shard=8)),
     ("expand", [[2, 2], [2, 2]], True, T, dict(budget=2400, shard=8)),
